@@ -121,6 +121,7 @@ func genC05Verify(rt *rapid.T) (c05Verify, bool) {
 // ---- (ii) library-fingerprinted messages: flips and bursts -----------------
 
 type c05Flip struct {
+	Start  *bop  `json:"start,omitempty"` // nil: built from scratch; else the message is first DECODED (possibly with trailing bytes) and then extended
 	Before []bop `json:"before"`
 	Bit    int   `json:"bit"`    // first bit of the corruption, -1: every single bit
 	Width  int   `json:"width"`  // burst width in bits (1 = single flip)
@@ -177,7 +178,7 @@ func runC05Flip(c c05Flip, rec *evid.Rec, rt *rapid.T) (c05Flip, error) {
 	var b *builder
 	var err error
 	if perr := pbt.Safely(func() {
-		b, err = startBuilder(bop{Kind: "start-build", Sub: c.Before})
+		b, err = startThenApply(c.Start, c.Before)
 		if err == nil {
 			err = b.apply(bop{Kind: "fp"})
 		}
@@ -336,6 +337,7 @@ func TestC05_FlipBurst(t *testing.T) {
 		if rapid.Bool().Draw(rt, "withMI") {
 			c.Before = append(c.Before, bop{Kind: "mi", Key: toHex(genKey(rt))})
 		}
+		c.Start = genDecodedStart(rt)
 		rec.Case("message", evid.NewH().Str(fmt.Sprint(c.Before)).Sum(), false, nil)
 
 		return runC05Flip(c, rec, rt)
@@ -343,6 +345,50 @@ func TestC05_FlipBurst(t *testing.T) {
 }
 
 func TestC05_Replay(t *testing.T) { replayAll(t, "C05") }
+
+// startThenApply builds the message the seal is added to: from scratch (Build with the setters), or
+// by decoding a wire message - possibly followed by trailing bytes, which a successful decode
+// tolerates - and then applying the operations one by one.
+func startThenApply(start *bop, before []bop) (*builder, error) {
+	if start == nil {
+		return startBuilder(bop{Kind: "start-build", Sub: before})
+	}
+	b, err := startBuilder(*start)
+	if err != nil {
+		return nil, err
+	}
+	for _, o := range before {
+		if err := b.apply(o); err != nil {
+			return nil, err
+		}
+	}
+
+	return b, nil
+}
+
+// genDecodedStart: in a third of the cases the message starts life as a decoded one.
+func genDecodedStart(rt *rapid.T) *bop {
+	if rapid.IntRange(0, 2).Draw(rt, "decodedStart") != 0 {
+		return nil
+	}
+	w := gen.WireMsg(rt, 6, 300, true)
+	dropAlias(&w)
+	for i := range w.Attrs {
+		switch w.Attrs[i].Type {
+		case 0x0008:
+			w.Attrs[i].Type = 0x7F10
+		case 0x8028:
+			w.Attrs[i].Type = 0x7F11
+		}
+	}
+	kind := rapid.SampledFrom([]string{"start-decode-trailing", "start-decode-trailing", "start-decode", "start-decode-dirty"}).Draw(rt, "startKind")
+	w.Trailing = nil
+	if kind == "start-decode-trailing" {
+		w.Trailing = rapid.SliceOfN(rapid.Byte(), 1, 64).Draw(rt, "trailing")
+	}
+
+	return &bop{Kind: kind, Val: toHex(w.Bytes())}
+}
 
 // sanitizeSeal remaps attribute types that would put an earlier
 // MESSAGE-INTEGRITY / FINGERPRINT into a message about to be signed.
